@@ -38,6 +38,12 @@ ASSUMPTIONS = [
     "counters/rows ahead, behind, interleaved, created before or after ours), the in-memory journal / object-only "
     "restart over a live Journaler, and the receive buffer of the library's reader task are covered by "
     "correspondence (whole endpoint state compared, other sessions must stay untouched) and oracle only",
+    "'completed' (C09: 'the restored counters equal those the old object held for everything it had completed') is read "
+    "as: the frame was in sequence and its handler ran to the point where the application callback RETURNED OR RAISED "
+    "(any exception, also asyncio.CancelledError / a KeyboardInterrupt-like BaseException) or its reply's write/drain "
+    "raised; such a frame counts as delivered and must be counted and journaled (the code does this in a `finally`). "
+    "Collaborator faults (hooks / transport raising once, then working again) are outside the Lean model (hooks return "
+    "normally there): oracle only",
     "theorems are about runs in which no exception is caught or escapes (stored_eq_live, no_number_reuse) and "
     "the application does not send frames that carry their own MsgSeqNum (SequenceReset / PossDupFlag=Y) or call "
     "reset_seq_num(); the oracle uses the same scope",
@@ -472,6 +478,7 @@ class Session:
         self.nid = 0
         self.d13_at_restart = False
         self.killed_at = None
+        self.faulted = False
         self.mute_testreq = False  # the counterparty does not answer the endpoint's TestRequest by itself
 
     # ---- helpers -------------------------------------------------------------------------------
@@ -865,6 +872,59 @@ def scen_kill_recv(impl, rng, role, kind, j):
     return s, True
 
 
+FAULT_SITES = {
+    # site: (what the counterparty sends, collaborator that fails)
+    "M": "app",          # on_message of an in-sequence application message
+    "N": "testreq",      # drain of the Heartbeat reply to a TestRequest
+    "W": "testreq",      # transport write of that reply
+    "S": "gap",          # on_state_change(RESENDREQ_AWAITING) while a gap is being handled
+}
+
+
+def scen_hook_fault(impl, rng, role, site, exc, then_restart):
+    """a collaborator fails ONCE while an in-sequence frame is processed – the application hook raises an Exception
+    subclass / asyncio.CancelledError / a KeyboardInterrupt-like BaseException, or the reply's write / drain raises
+    (connection reset, task cancelled while suspended) – and works again afterwards.  'Completed' is read as: the
+    handler ran and the callback returned OR RAISED; such a frame must be counted and journaled, so that after a
+    restart (the reader task is dead after a CancelledError: the operator restarts) + reconnect + Logon with the
+    counterparty continuing its numbering there is no ResendRequest and no second delivery."""
+    s = Session(impl, role, rng, allow_memory=not then_restart or rng.random() < 0.5)
+    warm(s, rng, rng.randint(1, 4))
+    if s.a.state != 17:
+        return s
+    kind = FAULT_SITES[site]
+    impl.arm_fault(site, 0, exc)
+    if kind == "app":
+        s.app_in()
+    elif kind == "testreq":
+        s.peer_send("1", [(112, "F1")])
+    else:
+        s.app_in(lose=True)
+        s.app_in()
+    fired = impl.fault_fired
+    impl.arm_fault(None)
+    s.trace.append(["fault", site, exc, fired])
+    if not fired:
+        return s
+    s.faulted = True
+    in_session = s.a.state > 3
+    if kind != "gap" and in_session and s.a.next_in != s.p_out and not then_restart:
+        s.fail("C09-completed-message-not-counted", "an in-sequence frame whose handler ran (callback returned or raised) "
+               "is not counted by the live object", s.p_out, s.a.next_in)
+    if then_restart:
+        nothing_lost = kind != "gap" and in_session
+        old, new = s.restart(False)
+        if nothing_lost and new.next_in != s.p_out and new.next_in == old.next_in:
+            s.fail("C09-completed-message-not-counted", "an in-sequence frame whose handler ran (callback returned or "
+                   "raised) is neither counted nor journaled: the restored inbound counter is behind the counterparty",
+                   s.p_out, new.next_in)
+        s.relogon_checks(nothing_lost)
+    s.app_in()
+    s.app_out()
+    s.final_checks()
+    return s
+
+
 def scen_peer_midframe(impl, rng, role, where):
     """the COUNTERPARTY is the one that dies: in the middle of writing a frame (the frame is in its journal
     already), so the surviving endpoint – acceptor through the real `_handle_accept`, initiator through the real
@@ -912,6 +972,8 @@ def run_scenarios(impl, rng, rounds, stats):
         stats["scenarios"] = stats.get("scenarios", 0) + 1
         stats.setdefault("by_scenario", {})
         stats["by_scenario"][name] = stats["by_scenario"].get(name, 0) + 1
+        if name.startswith("fault:"):
+            stats["faults_fired"] = stats.get("faults_fired", 0) + (1 if s.faulted else 0)
         cfg = stats.setdefault("config", {})
         for k in [f"others={len(s.others)}"] + ["other-session:" + o["rel"] for o in s.others] + [
                   "others-created-first" if (s.others and s.others_first) else "ours-created-first",
@@ -930,6 +992,17 @@ def run_scenarios(impl, rng, rounds, stats):
                 seed = rng.randrange(1 << 30)
                 s = scen_quiescent(impl, _rng(seed), role, v)
                 collect(s, "quiescent:" + v, {"role": role, "seed": seed, "variant": v})
+            for site in ("M", "N", "W", "S"):
+                for exc in ("exception", "cancel", "interrupt", "reset"):
+                    if site in ("M", "S") and exc == "reset":
+                        continue        # a connection reset comes from the transport, not from a hook
+                    for then_restart in (True, False):
+                        if exc in ("cancel", "interrupt") and not then_restart:
+                            continue    # the reader task is dead after these: the only continuation is a restart
+                        seed = rng.randrange(1 << 30)
+                        s = scen_hook_fault(impl, _rng(seed), role, site, exc, then_restart)
+                        collect(s, f"fault:{site}:{exc}:{'restart' if then_restart else 'continue'}",
+                                {"role": role, "seed": seed, "site": site, "exc": exc, "then_restart": then_restart})
             for where in ("head", "marker", "mid", "tail"):
                 seed = rng.randrange(1 << 30)
                 s = scen_peer_midframe(impl, _rng(seed), role, where)
@@ -958,6 +1031,8 @@ def run_one(impl, name, params):
     rng = _rng(params["seed"])
     if name.startswith("quiescent:"):
         return scen_quiescent(impl, rng, params["role"], params["variant"])
+    if name.startswith("fault:"):
+        return scen_hook_fault(impl, rng, params["role"], params["site"], params["exc"], params["then_restart"])
     if name.startswith("peer-midframe:"):
         return scen_peer_midframe(impl, rng, params["role"], params["where"])
     if name.startswith("kill-send:"):
